@@ -75,8 +75,8 @@ func (p *Proxy) SetFault(kind cache.EntryKind, hash string, f Fault) {
 	p.mu.Unlock()
 }
 
-func (p *Proxy) NumGets() int   { p.mu.Lock(); defer p.mu.Unlock(); return len(p.GetCalls) }
-func (p *Proxy) NumConts() int  { p.mu.Lock(); defer p.mu.Unlock(); return len(p.ContCalls) }
+func (p *Proxy) NumGets() int  { p.mu.Lock(); defer p.mu.Unlock(); return len(p.GetCalls) }
+func (p *Proxy) NumConts() int { p.mu.Lock(); defer p.mu.Unlock(); return len(p.ContCalls) }
 func (p *Proxy) PutsCopy() []PutRec {
 	p.mu.Lock()
 	defer p.mu.Unlock()
